@@ -12,7 +12,8 @@
 EXTENDS KubePolicy, KubePicks, Json, SequencesExt
 
 CONSTANTS MaxExpA,      \* slice A: one service, every expose list up to this length
-          MaxExpC,      \* slice C: two services, every pair of expose lists up to this length
+          MaxExpC1,     \* slice C: two services, every pair of expose lists: up to this length on the first service
+          MaxExpC2,     \*          ... and up to this length on the second
           LevelIdx,     \* commit levels used by slice B (indices into LevelTab)
           SizeIdx,      \* resource sizes used by slice B (indices into SizeTab)
           Owners, Providers, DSeqs, GSeqs, OSeqs,    \* slice F: the lease ids (chosen to collide as prefixes)
@@ -58,7 +59,8 @@ Settings(lc, lm, ls, np, rt, static) ==
   [cpu |-> LevelTab[lc], mem |-> LevelTab[lm], sto |-> LevelTab[ls], netpol |-> np, runtime |-> RuntimeTab[rt],
    static |-> static, domain |-> Domain]
 R(svcs, st) == [svcs |-> svcs, st |-> st]
-In(slice, l, rounds) == [id |-> 0, slice |-> slice, lease |-> l, rounds |-> rounds]
+In(slice, l, rounds) == [id |-> 0, slice |-> slice, lease |-> l, rounds |-> rounds, other |-> <<>>]
+In2(slice, l, rounds, l2, r2) == [id |-> 0, slice |-> slice, lease |-> l, rounds |-> rounds, other |-> <<[lease |-> l2, r |-> r2]>>]
 
 ExpLists(n) == UNION {[1..k -> ExposeKinds] : k \in 0..n}
 BgSettings(np, static) == Settings(BgLevels[1], BgLevels[2], BgLevels[3], np, BgRuntime, static)
@@ -71,7 +73,7 @@ SliceA == {In("A", BgL, <<R(<<Web(x, BgCount, SizeTab[BgSize])>>, BgSettings(np,
 SliceB == {In("B", BgL, <<R(<<Web(BgExp, 1 + (sz % 2), SizeTab[sz])>>, Settings(lc, lm, ls, TRUE, rt, BgStatic))>>) :
              sz \in SizeIdx, lc \in LevelIdx, lm \in LevelIdx, ls \in LevelIdx, rt \in DOMAIN RuntimeTab}
 SliceC == {In("C", BgL, <<R(<<Web(x, BgCount, SizeTab[BgSize]), Db(y, 1, SizeTab[2])>>, BgSettings(np, BgStatic))>>) :
-             x \in ExpLists(MaxExpC), y \in ExpLists(MaxExpC), np \in BOOLEAN}
+             x \in ExpLists(MaxExpC1), y \in ExpLists(MaxExpC2), np \in BOOLEAN}
 
 \* slice D: manifest updates (second Deploy on the same lease): every ordered pair of groups, policies on;
 \* plus settings changing between the rounds
@@ -98,16 +100,25 @@ SliceE == LET ls == LeaseSeq IN {PickInput(ls, p) : p \in Picks}
 \* slice F: every lease id of the collision set, one small group, policies on
 SliceF == {In("F", l, <<R(<<Web(<<ExposeTab[7]>>, 1, SizeTab[2])>>, Settings(2, 2, 2, TRUE, 1, FALSE))>>) : l \in LeaseSet}
 
-InputSeq == SetToSeq(SliceA \cup SliceB \cup SliceC \cup SliceD \cup SliceE \cup SliceF)
+\* slice G: two leases in one cluster. The main lease (policies on) shares the cluster with every other lease id of the
+\* collision set; and every ordered pair of groups is deployed for one fixed pair of leases (the second one with policies
+\* on / off), the main lease once and twice
+NeighbourOf(ls) == LeaseAt(ls, BgLease + 1)
+SliceG == LET ls == LeaseSeq IN
+  {In2("G", BgL, <<R(GroupTab[4], BgSettings(TRUE, BgStatic))>>, l, R(GroupTab[6], BgSettings(TRUE, BgStatic))) : l \in LeaseSet \ {BgL}}
+  \cup {In2("G", BgL, <<R(g1, BgSettings(TRUE, BgStatic))>>, NeighbourOf(ls), R(g2, BgSettings(np, BgStatic))) : g1 \in GroupsD, g2 \in GroupsD, np \in BOOLEAN}
+  \cup {In2("G", BgL, <<R(g1, BgSettings(TRUE, BgStatic)), R(g2, BgSettings(TRUE, BgStatic))>>, NeighbourOf(ls), R(g1, BgSettings(TRUE, BgStatic))) : g1 \in GroupsD, g2 \in GroupsD}
+
+InputSeq == SetToSeq(SliceA \cup SliceB \cup SliceC \cup SliceD \cup SliceE \cup SliceF \cup SliceG)
 NumberedSeq == LET s == InputSeq IN [i \in 1..Len(s) |-> [s[i] EXCEPT !.id = i]]
 MCInputs == KRange(NumberedSeq)
 
 ASSUME ndJsonSerialize("inputs.ndjson", NumberedSeq)
 
 \* export-only run: no behaviour to explore
-ExportInit == cur = 0 /\ rnd = 0 /\ todo = <<>> /\ cluster = {}
+ExportInit == cur = [rounds |-> <<>>, other |-> <<>>] /\ rnd = 0 /\ todo = <<>> /\ cluster = {}
 ExportNext == UNCHANGED vars
 ASSUME PrintT([universe |-> Len(InputSeq), A |-> Cardinality(SliceA), B |-> Cardinality(SliceB), C |-> Cardinality(SliceC),
-               D |-> Cardinality(SliceD), E |-> Cardinality(SliceE), F |-> Cardinality(SliceF),
+               D |-> Cardinality(SliceD), E |-> Cardinality(SliceE), F |-> Cardinality(SliceF), G |-> Cardinality(SliceG),
                leases |-> Cardinality(LeaseSet), exposeLists |-> Cardinality(ExpLists(MaxExpA))])
 =============================================================================
